@@ -113,8 +113,8 @@ func evalExecBlock(vm *r.VM, execBlock *syntax.ExecBlock, params []r.Element) (r
 			return nil, err
 		}
 
-		// set inputValue to current scope
-		if err := vm.DeclareElement(idTag, params[idx]); err != nil {
+		// set inputValue to current scope (inputs cannot be reassigned)
+		if err := vm.DeclareConstElement(idTag, params[idx]); err != nil {
 			return nil, err
 		}
 	}
@@ -764,7 +764,7 @@ func evalMemberMethodExpr(vm *r.VM, expr *syntax.MemberMethodExpr) (r.Element, e
 		}
 
 		// bind yield result
-		if err := vm.DeclareElement(vtag, vlast); err != nil {
+		if err := vm.DeclareConstElement(vtag, vlast); err != nil {
 			return nil, err
 		}
 	}
